@@ -63,6 +63,7 @@ type Root struct {
 }
 
 type Env struct {
+	frozen  map[string]reflect.Value // frozen dictionary structs of the current case, by type and value (setOpts.reuse)
 	Sch   Schema
 	Roots map[string]Root
 
@@ -259,6 +260,10 @@ func parsePrim(p string, j any) any {
 
 type setOpts struct {
 	freeze bool // Freeze dictionary structs before handing them to Set<F>(ptr)
+	// reuse (with freeze): when the same value of a dictionary struct recurs within a case, hand the SAME
+	// frozen object to Set<F>(ptr) again (the way converters share frozen resources / scopes / metrics);
+	// such an object has been encoded before, so its modified marks are clear and its reference caches set
+	reuse bool
 }
 
 // set the composite value held in v (pointer) to j
@@ -402,12 +407,27 @@ func (e *Env) setField(st *Struct, f *Field, v reflect.Value, j any, so *setOpts
 	setter := v.MethodByName("Set" + name)
 	if f.Type.K == "struct" && setter.IsValid() && setter.Type().NumIn() == 1 && setter.Type().In(0).Kind() == reflect.Ptr {
 		// stored by pointer (dictionary struct): build a fresh object and hand it over
+		var ckey string
+		if so.freeze && so.reuse {
+			jb, _ := json.Marshal(j)
+			ckey = fmt.Sprintf("%d|%s", f.Type.ID, jb)
+			if old, ok := e.frozen[ckey]; ok {
+				setter.Call([]reflect.Value{old})
+				return
+			}
+		}
 		obj := reflect.New(setter.Type().In(0).Elem())
 		call(obj, "Init")
 		e.set(&f.Type, obj, j, so)
 		if so.freeze {
 			if fm := obj.MethodByName("Freeze"); fm.IsValid() {
 				fm.Call(nil)
+				if ckey != "" {
+					if e.frozen == nil {
+						e.frozen = map[string]reflect.Value{}
+					}
+					e.frozen[ckey] = obj
+				}
 			}
 		}
 		setter.Call([]reflect.Value{obj})
@@ -1184,6 +1204,7 @@ func (e *Env) RunC09(c *Case) (out *Out) {
 
 func (e *Env) RunCase(c *Case) (out *Out) {
 	e.lastArr = nil
+	e.frozen = nil
 	if c.Mode == "c06" {
 		return e.RunC06(c)
 	}
@@ -1221,6 +1242,9 @@ func (e *Env) RunCase(c *Case) (out *Out) {
 					so := &setOpts{}
 					if fz, ok := op["freeze"].(bool); ok {
 						so.freeze = fz
+					}
+					if ru, ok := op["reuse"].(bool); ok {
+						so.reuse = ru
 					}
 					if cp, ok := op["copy"].(bool); ok && cp {
 						// the value is built in a detached record and handed over with CopyFrom
